@@ -55,6 +55,9 @@ fn main() {
             "C27" => vf_harness::realleaf::run_c27(&ctx),
             "C32" => vf_harness::secrets::run_c32(&ctx),
             "C33" => vf_harness::secrets::run_c33(&ctx),
+            "C10" => vf_harness::gadgets::run_c10(&ctx),
+            "C30" => vf_harness::gadgets::run_c30(&ctx),
+            "C31" => vf_harness::gadgets::run_c31(&ctx),
             "C28" => vf_harness::policy::run_c28(&ctx),
             "C29" => vf_harness::policy::run_c29(&ctx),
             _ => {
